@@ -65,7 +65,8 @@ def Enf.WFState (e : Enf) : Prop :=
   (e.p.map (·.1) = e.md.p.map (·.1)) ∧ (e.g.map (·.1) = e.md.g.map (·.1)) ∧ (e.rm.map (·.1) = e.md.g.map (·.1)) ∧
   (e.md.p.map (·.1)).Nodup ∧ (e.md.g.map (·.1)).Nodup ∧
   (∀ pt s, e.p.lookup pt = some s → Coh s ∧ ∃ toks, e.md.p.lookup pt = some toks ∧ ∀ r ∈ s.policy, plainRule toks.length r = true) ∧
-  (∀ gt s, e.g.lookup gt = some s → Coh s ∧ ∃ count kind, e.md.g.lookup gt = some (count, kind) ∧ 2 ≤ count ∧
+  (∀ gt s, e.g.lookup gt = some s → Coh s ∧ ∃ count kind, e.md.g.lookup gt = some (count, kind) ∧ 2 ≤ count ∧ count ≤ 3 ∧
+      (kind = .plain → count = 2) ∧      -- `initRmMap`: a plain manager is chosen exactly for two-place definitions
       ∀ r ∈ s.policy, plainRule count r = true) ∧
   (∀ gt rm, e.rm.lookup gt = some rm → ∃ count, e.md.g.lookup gt = some (count, rm.kind))
 
